@@ -5,6 +5,7 @@
 mod bound;
 mod client;
 mod gen;
+mod updater;
 mod util;
 mod vclock;
 
@@ -41,6 +42,7 @@ fn lines() {
             "cba" => client::run(&mut ctx, &toks[1..]),
             "bnd" => bound::run_bnd(&toks[1..]),
             "cls" => bound::run_cls(&toks[1..]),
+            "upd" => updater::run(&toks[1..]),
             t => {
                 eprintln!("unknown tag {}", t);
                 std::process::exit(2);
